@@ -268,7 +268,7 @@ func (c *FnCtx) callByContract(frame *Frame, st *State, in ssa.Instruction, call
 		}
 	}
 	short := key[strings.LastIndex(key, "/")+1:]
-	for _, r := range fc.Requires {
+	for _, r := range append(append([]*Clause{}, fc.Requires...), fc.RequiresLocked...) {
 		t, err := c.evalBool(env, r.Expr)
 		if err != nil {
 			c.errs = append(c.errs, fmt.Sprintf("%s:%d: requires %s at call: %v", r.File, r.Line, r.Label, err))
